@@ -777,8 +777,12 @@ func (s *Server) netServe() error {
 							s.mu.Lock()
 							defer s.mu.Unlock()
 							s.flushAOF(false)
+							// clear the flag while still holding the lock. Clearing
+							// it after the unlock can wipe out the mark of a write
+							// another connection appended in between, whose reply
+							// would then go out before its bytes reach the file.
+							s.aofdirty.Store(false)
 						}()
-						s.aofdirty.Store(false)
 					}
 					conn.Write(client.out)
 					client.out = nil
